@@ -9,6 +9,7 @@ import (
 	"os"
 	"path/filepath"
 	"runtime"
+	"runtime/pprof"
 	"sort"
 	"strings"
 	"sync"
@@ -191,6 +192,19 @@ func main() {
 		}
 		os.MkdirAll(outDir, 0o755)
 		fmt.Fprintf(os.Stderr, "symgo: development run against %s, output under %s\n", repoDir, outDir)
+	}
+	if pf := os.Getenv("SYMGO_CPUPROFILE"); pf != "" {
+		f, err := os.Create(pf)
+		if err == nil {
+			pprof.StartCPUProfile(f)
+			code := 0
+			if os.Args[1] == "run" {
+				code = cmdRun(os.Args[2:])
+			}
+			pprof.StopCPUProfile()
+			f.Close()
+			os.Exit(code)
+		}
 	}
 	switch os.Args[1] {
 	case "run":
